@@ -8,10 +8,12 @@ import PyGqlModel.Lemmas.ValidateWalkI
 namespace PyGql.Validate
 open PyGql PyGql.Validate.Spec
 
-/-- `bad n`: entering `n` raises SkipNode (with at least one error); otherwise entering adds `f n` errors; leaving
+/-- `bad n`: entering `n` raises SkipNode (with at least one error, counted after the members that entered are left
+    again - semantics of fix 391ad62); otherwise entering adds `f n` errors; leaving
     adds `g n` -/
 structure SCF (c : Cfg) (bad : Node → Bool) (f g : Node → Nat) : Prop where
-  skipE : ∀ n st, n.isDoc = false → bad n = true → (enter c n st).2 = true ∧ E st < E (enter c n st).1
+  skipE : ∀ n st, n.isDoc = false → bad n = true →
+    (enter c n st).2 = true ∧ E st < E (leaveSkipped c n st (enter c n st).1)
   noskip : ∀ n st, n.isDoc = false → bad n = false → (enter c n st).2 = false
   enterE : ∀ n st, n.isDoc = false → bad n = false → E (enter c n st).1 = E st + f n
   leaveE : ∀ n st, n.isDoc = false → E (leave c n st) = E st + g n
